@@ -162,6 +162,16 @@ func checkC12(sc *Scenario, st *Stats) *Violation {
 			return violf("panic", "the VM panicked: %.1200s", rp.Obs[i].Panic)
 		}
 	}
+	// flat fee: a journal instruction that has its fee available does not run out of gas
+	for i := range rp.Rec.Evs {
+		e := &rp.Rec.Evs[i]
+		if e.K == EvStep && e.Op >= RSVJNAL && e.Op <= VRJNAL && inSite(ex.Sites, e.CodeAddr, e.PC) && strings.Contains(e.Err, "out of gas") {
+			if f, ok := c12RefFees()[e.Op]; ok && e.Gas >= f {
+				return violf("fee/out-of-gas-with-fee-available", "journal instruction %02x at pc %d (fork %s, depth %d) ran out of gas with %d gas left; its fee is %d", e.Op, e.PC, sc.Fork, e.Depth, e.Gas, f)
+			}
+			st.Label("journal-op-out-of-gas-below-fee")
+		}
+	}
 	// gas must not be observable: discard runs in which some frame ran out of gas
 	for _, r := range []*ArtelaRun{rp, rq} {
 		for i := range r.Rec.Evs {
@@ -338,6 +348,10 @@ func genC12(t *rapid.T) *Scenario {
 	driver := ContractAddrs[5]
 	d := NewAsm()
 	ncontracts := 0
+	// one case in seven drives the contracts with so little gas that journal
+	// instructions are reached with about their fee left (flat-fee clause; such
+	// runs make gas observable and do not take part in the comparison with pops)
+	lowGas := chance(t, 15, "lowgas")
 	for _, acc := range sc.Accounts {
 		if len(acc.Code) == 0 || acc.Addr[0] != 0xc0 {
 			continue
@@ -354,7 +368,13 @@ func genC12(t *rapid.T) *Scenario {
 			if kind == CALL {
 				d.Push(0)
 			}
-			d.Push(acc.Addr[:]).Push(120000).Op(kind)
+			// mostly ample gas; sometimes so little that a journal instruction is reached
+			// with about its fee left (the stipend, a bit more, a bit less)
+			dg := 120000
+			if lowGas {
+				dg = pickInt(t, "drivegas", 120000, 5000, 2500, 2300, 1500, 1000, 900)
+			}
+			d.Push(acc.Addr[:]).Push(uint64(dg)).Op(kind)
 			d.Push(uint64(0x60 + ncontracts*4 + int(kind&3))).Op(SSTORE)
 		}
 	}
@@ -368,7 +388,7 @@ func genC12(t *rapid.T) *Scenario {
 			sc.Invs[i].To = ContractAddrs[0]
 			sc.Invs[i].Input = nil
 		}
-		if chance(t, 50, "viadriver") {
+		if lowGas || chance(t, 50, "viadriver") {
 			sc.Invs[i].Kind = "call"
 			sc.Invs[i].To = driver
 		}
